@@ -65,6 +65,11 @@ CONFIGS = {
 }
 
 
+# thorough = its own larger configurations plus every quick configuration one level deeper
+CONFIGS['thorough'] = CONFIGS['thorough'] + [(name + ' [quick configuration, one level deeper]', params, depth + 1)
+                                             for (name, params, depth) in CONFIGS['quick']]
+
+
 def main(tier, seed):
   return run(PROP, CLAUSE_PREFIXES, CONFIGS, tier, seed, RULE, ASSUME + [
     'GetServers() returns the initial snapshot; notifications issued while it blocks are logically later and are '
